@@ -222,7 +222,9 @@ CHECKS = {
            "recursive types, value/pointer-receiver marshalers) x boundary and random values with nil at every nilable position x reached directly / through a pointer / "
            "through interface{} x Marshal, MarshalIndent, Encoder with escapeHTML on/off and indent, compared with encoding/json up to the tolerated token spellings; a "
            "crash of the encoder is attributed to the case being run. Ten recorded findings with frozen syntactic classes (see KNOWN_FINDINGS.txt); four of them crash "
-           "the process and are excluded from generation and probed by witnesses in child processes. Partial: the compile step from Go types to opcodes is not modelled."),
+           "the process and are excluded from generation and probed by witnesses in child processes. "
+           "Also proved: omitempty on a member whose type implements a marshaler interface is left out exactly when encoding/json leaves it out, for every value of every kind in both member positions, but for one named case (Model/Emptiness.v over the rules and interpreter cases the translator reads from the source; op c01.omits); the interpreter's MarshalText cases are its MarshalJSON cases renamed (Gen/Twins.v). "
+           "Partial: the compile step from Go types to opcodes is not modelled."),
   'note': TB,
   'technique': 'Coq emission-discipline theorem (enc = compact text of tokens) with extracted-model correspondence + generated type/value differential against encoding/json',
  },
